@@ -177,6 +177,9 @@ def parse_verus(unit, stdout, stderr, rc):
         res['status'] = 'undecided'
     elif res['errors'] or res['n_errors']:
         res['status'] = 'fail'
+    elif not vr or not vr.get('success') or 'panicked at' in stderr:
+        res['status'] = 'tool'
+        res['tool_msgs'].append({'message': 'verus did not report success: ' + stderr[-1500:], 'spans': [], 'rendered': stderr[-1500:]})
     else:
         res['status'] = 'ok'
     return res
